@@ -433,3 +433,28 @@ pub fn merge(client: impl Jar, server: impl Jar) -> Result<ParsedJar<ClassRepr, 
 
 	Ok(ParsedJar { entries: resulting_entries })
 }
+
+#[cfg(feature = "verif")]
+pub mod verif {
+	//! Verification hooks (feature `verif`): forwarding wrappers only. `Side` is private, so the side
+	//! callback receives `true` for the client and `false` for the server.
+	use std::hash::Hash;
+	use anyhow::Result;
+
+	pub fn merge_preserve_order<'a, T: Clone + PartialEq>(a: &'a [T], b: &'a [T]) -> std::vec::IntoIter<&'a T> {
+		super::merge_preserve_order(a, b)
+	}
+
+	pub fn merge_slice<T, Key>(
+		client: &[T], server: &[T],
+		get_key: impl Fn(&T) -> Key,
+		side: impl Fn(&T, bool) -> Result<T>,
+		inner: impl Fn(&T, &T) -> Result<T>,
+	) -> Result<Vec<T>>
+		where
+			T: Clone + PartialEq,
+			Key: Clone + PartialEq + Eq + Hash,
+	{
+		super::merge_slice(client, server, get_key, |t, s| side(t, s == super::Side::Client), inner)
+	}
+}
